@@ -35,9 +35,23 @@ def centerWith (f : Rat → Rat → Rat) (S : Mat) (mean : List Rat) : Mat := S.
 /-- first operand of `np.linalg.lstsq` in `fit` -/
 def lstsqA (ids : List Nat) (X : Mat) : Mat := centerWith CorrRemoverSrc.fitCenter (sensSrc ids X) (fitMeanSrc ids X)
 
-/-- what `beta_ = lstsq(A, USE)[0]` is assumed to satisfy: the normal equations of the operands AS THE SOURCE PASSES THEM -/
+/-- What the model ASSUMES about the first result `β` of `np.linalg.lstsq(A, Z, rcond)` (the only thing `lstsq` is trusted for).
+  * `rcond = none` (numpy's machine-precision cut-off `eps * max(M, N)`): no singular value that is non-zero in exact
+    arithmetic is discarded on the exactly representable, moderately conditioned inputs the check generates, and `β` is a
+    least-squares solution, i.e. it satisfies the normal equations `Aᵀ(Z − Aβ) = 0` (`isLstsq`; evaluated exactly by the
+    driver on every fitted `beta_`).
+  * `rcond = some q`: numpy solves the problem with every singular value below `q·σ_max` replaced by zero.  That `β` solves
+    the normal equations of a DIFFERENT (rank-truncated) matrix, so the model assumes NOTHING about it (`true`): no clause of
+    C15 follows, and every `src_*` theorem that needs the normal equations fails to elaborate for such a source. -/
+def lstsqAssumed (rcond : Option Rat) (A Z β : Mat) (ms mz : Nat) : Bool :=
+  match rcond with
+  | none => isLstsq A Z β ms mz
+  | some _ => true
+
+/-- what `beta_ = lstsq(A, USE, rcond)[0]` is assumed to satisfy: `lstsqAssumed` at the LIFTED `rcond`, for the operands AS
+    THE SOURCE PASSES THEM -/
 def isLstsqSrc (ids : List Nat) (m : Nat) (X β : Mat) : Bool :=
-  isLstsq (lstsqA ids X) (useSrc ids m X) β ids.length (keptIdx ids m).length
+  lstsqAssumed CorrRemoverSrc.lstsqRcond (lstsqA ids X) (useSrc ids m X) β ids.length (keptIdx ids m).length
 
 /-- the centring vector `transform` uses on the batch `X` -/
 def transformMean (p : Params) (X : Mat) : List Rat :=
@@ -60,6 +74,7 @@ def transformSrc (p : Params) (X : Mat) : Mat := X.map (transformRowSrc p (trans
   `corrsrc.split <m> <ids>`                       kept column positions, in output order
   `corrsrc.normal <X> <ids> <beta>`               Aᵀ(USE − A·beta), A = first lstsq operand of fit
   `corrsrc.transform <X> <ids> <mean> <beta> <alpha>`   transform of the batch X with the fitted state
+  `corrsrc.rcond`                                 the lifted `rcond` of the lstsq call: `none` or the number
   `corrsrc.lookup df <column name codes> <sensitive name codes>` / `corrsrc.lookup arr <m> <ids>`
                                                   `sensitive` of `_split_X` through the lifted `_create_lookup` table -/
 def handle (toks : List String) : Option String :=
@@ -70,6 +85,10 @@ def handle (toks : List String) : Option String :=
     let m := ncols X
     if X.isEmpty || !wellShaped m X || !okIds ids m then none
     else pure (Proto.fmtRats (fitMeanSrc ids X))
+  | ["corrsrc.rcond"] =>
+    match CorrRemoverSrc.lstsqRcond with
+    | none => some "none"
+    | some q => some (Proto.fmtRats [q])
   | ["corrsrc.split", m, ids] => do
     let m ← Proto.parseNat m
     let ids ← Proto.parseNats ids
